@@ -5,7 +5,7 @@ from vlib import Case
 
 HARNESS = "rx_driver"
 LEAN_MODULES = ["ViaProofs.C18"]
-REQUIRED_THEOREMS = ['Via.C18_seq', 'Via.erase_absent_noop', 'Via.C18_erase_compares_key_under_lock', 'Via.C18_lock_discipline']
+REQUIRED_THEOREMS = ['Via.C18_seq', 'Via.erase_absent_noop', 'Via.C18_erase_compares_key_under_lock', 'Via.C18_lock_discipline', 'Via.C18_commute_distinct_buckets']
 LEVEL = "proof"
 RULE = ("all operation histories up to a length bound over keys {1,2,3,22} x bucket configurations "
         "(1 bucket = maximal collision, 3 buckets, default 19) plus random histories up to 200 operations; "
